@@ -86,6 +86,7 @@ func (g *Gen) loopEnv(li *loopInfo, phis map[string]*Val) *Env {
 	}
 	env.resolve = func(name string) *Val { return g.resolveAt(li.header, name) }
 	env.loopNext = li.preNext
+	g.dropAddressTakenParams(env)
 	return env
 }
 
@@ -363,12 +364,24 @@ func (g *Gen) specVal(env *Env, e *Expr) *Val {
 		}
 		var bside []string
 		sub.side = &bside
-		body := g.specBool(sub, e.Args[0])
-		if len(bside) > 0 {
+		var body string
+		if be := e.Args[0]; e.Op == "forall" && be.Op == "bin" && be.Tok == "==>" {
+			// guarded body: the typing facts of the cells read are asserted (resp. assumed) under the guard only
+			guard := g.specBool(sub, be.Args[0])
+			cons := g.specBool(sub, be.Args[1])
 			if env.goal {
-				body = fmt.Sprintf("(=> %s %s)", and(bside...), body)
+				body = fmt.Sprintf("(=> %s %s)", and(append([]string{guard}, bside...)...), cons)
 			} else {
-				body = and(append(bside, body)...)
+				body = fmt.Sprintf("(=> %s %s)", guard, and(append(bside, cons)...))
+			}
+		} else {
+			body = g.specBool(sub, e.Args[0])
+			if len(bside) > 0 {
+				if env.goal {
+					body = fmt.Sprintf("(=> %s %s)", and(bside...), body)
+				} else {
+					body = and(append(bside, body)...)
+				}
 			}
 		}
 		return scalar("Bool", fmt.Sprintf("(%s (%s) %s)", e.Op, strings.Join(decls, " "), body), nil)
@@ -460,7 +473,7 @@ func (g *Gen) specIdent(env *Env, e *Expr) *Val {
 			return v
 		}
 	}
-	if v, ok := g.params[name]; ok {
+	if v, ok := g.params[name]; ok && env.resolve == nil {
 		return v
 	}
 	if gv, ok := env.ghost[name]; ok {
@@ -534,6 +547,12 @@ func (g *Gen) specCall(env *Env, e *Expr) *Val {
 			return nil
 		}
 		return scalar("Bool", fmt.Sprintf("(and (>= %s %s) (< %s %s))", a.S[0], env.oldNextobj, a.S[0], env.nextobj), nil)
+	case "pow2":
+		a := g.specVal(env, args[0])
+		if a == nil {
+			return nil
+		}
+		return scalar("Int", g.pow2term(a.S[0]), nil)
 	case "sinceloop":
 		// sinceloop(x): x refers to an object allocated since the enclosing loop was entered (or x is empty)
 		a := g.specVal(env, args[0])
@@ -846,4 +865,18 @@ func regionHasSort(r region, s string) bool {
 		}
 	}
 	return false
+}
+
+// dropAddressTakenParams: inside the body a parameter whose address is taken lives in memory (an Alloc named
+// like it); there its name denotes the current content, not the entry value.
+func (g *Gen) dropAddressTakenParams(env *Env) {
+	for _, b := range g.fn.Blocks {
+		for _, ins := range b.Instrs {
+			if al, ok := ins.(*ssa.Alloc); ok {
+				if _, isParam := g.params[al.Comment]; isParam {
+					delete(env.vars, al.Comment)
+				}
+			}
+		}
+	}
 }
